@@ -375,7 +375,7 @@ func (e *c09Env) ruleOnePerPeer() {
 			c.Bad("R09.3", key, posOf(r), "findPiece can return a piece while %s.Downloading may be true: a second piece download for the same peer", pe.Name())
 		}
 	}
-	c.Floor("R09.3", "piece-returning returns of findPiece", n, 5)
+	c.Floor("R09.3", "piece-returning returns of findPiece", n, 1)
 
 	start := c.Func("torrent", "(*torrent).startSinglePieceDownloader")
 	closePD := c.Func("torrent", "(*torrent).closePieceDownloader")
@@ -516,6 +516,8 @@ func (e *c09Env) ruleDuplicateBound() {
 			n++
 			key := e.k.key(fn, "return piece, duplicate bound")
 			switch {
+			case e.fromPick(v, fn.Params[pi]) != nil:
+				c.OK("R09.4", key, posOf(r), "returned piece is the result of %s for the same peer, whose own returns carry the bound", c09ShortName(e.fromPick(v, fn.Params[pi])))
 			case e.flow(c09Req0, fn, v, fn.Params[pi]).Before(r):
 				c.OK("R09.4", key, posOf(r), "returned piece %s has Requested.Len()==0", kit.Canon(v))
 			case e.flow(c09ReqLtMax, fn, v, fn.Params[pi]).Before(r):
@@ -599,8 +601,11 @@ func (e *c09Env) ruleDuplicateBound() {
 // c09OwnedBy returns root and the functions that exist only as a part of it:
 // every use of such a function is a plain static call from root or from
 // another owned function (no go / defer / function value).
-func c09OwnedBy(c *kit.Ctx, root *ssa.Function) map[*ssa.Function]bool {
+func c09OwnedBy(c *kit.Ctx, root *ssa.Function, more ...*ssa.Function) map[*ssa.Function]bool {
 	owned := map[*ssa.Function]bool{root: true}
+	for _, m := range more {
+		owned[m] = true
+	}
 	for changed := true; changed; {
 		changed = false
 		for _, fn := range c.ModuleFunctions() {
@@ -664,4 +669,35 @@ func (e *c09Env) delegatedReturn(r *ssa.Return, pe *ssa.Parameter) (*ssa.Functio
 		}
 	}
 	return callee, callee.Params[cpi]
+}
+
+// fromPick: v is the piece result of a call to another pick function that is given the same peer.
+func (e *c09Env) fromPick(v ssa.Value, pe *ssa.Parameter) *ssa.Function {
+	ex, ok := v.(*ssa.Extract)
+	if !ok || ex.Index != 0 {
+		return nil
+	}
+	call, ok := ex.Tuple.(*ssa.Call)
+	if !ok {
+		return nil
+	}
+	callee := call.Call.StaticCallee()
+	if callee == nil {
+		return nil
+	}
+	isPick := false
+	for _, f := range e.pickFuncs() {
+		if f == callee {
+			isPick = true
+		}
+	}
+	if !isPick {
+		return nil
+	}
+	for _, a := range call.Call.Args {
+		if a == ssa.Value(pe) {
+			return callee
+		}
+	}
+	return nil
 }
